@@ -59,6 +59,14 @@ class Lin(object):
         return Lin(self.c, t) + lin.scale(k)
 
 
+class _Flipped(object):
+    """a comparison with its operands exchanged: `hi > v` read as `v < hi`"""
+    def __init__(self, c):
+        self.kind = c.kind
+        self.op = {'<': '>', '>': '<', '<=': '>=', '>=': '<=', '!=': '!='}[c.op]
+        self.kids = [c.kids[1], c.kids[0]]
+
+
 class FuncSym(object):
     """Per-function symbolic evaluator."""
 
@@ -315,7 +323,12 @@ class FuncSym(object):
             return None
         l = strip(c.kids[0], casts=True)
         if not (l.kind == 'DeclRefExpr' and l.refid == vid):
-            return None
+            # `hi > v` is `v < hi`
+            r_ = strip(c.kids[1], casts=True)
+            if r_.kind == 'DeclRefExpr' and r_.refid == vid:
+                c = _Flipped(c)
+            else:
+                return None
         i = strip(inc)
         step = None
         if i.kind == 'UnaryOperator' and i.op in ('++', '--') and strip(i.kids[0]).refid == vid:
